@@ -37,7 +37,7 @@ Note(names, id) ==
 
 Stat0 == [runs |-> 0, steps |-> 0, first |-> 0, loop |-> 0, boundary |-> 0, full |-> 0, short |-> 0,
           stopped |-> 0, unexplained |-> 0, cut |-> 0, cutbelow |-> 0, cutanti |-> 0, stopover |-> 0,
-          poked |-> 0, nocanloop |-> 0, infloop |-> 0, infshort |-> 0, arc |-> 0, given |-> 0, inferred |-> 0, reuse |-> 0, clauses |-> 0]
+          poked |-> 0, nocanloop |-> 0, infloop |-> 0, infshort |-> 0, reusenz |-> 0, arc |-> 0, given |-> 0, inferred |-> 0, reuse |-> 0, clauses |-> 0]
 
 Init == l = 1 /\ inrun = FALSE /\ conf = <<>> /\ slots = <<>> /\ viol = {} /\ cnt = <<>> /\ stat = Stat0 /\ cells = {}
 
@@ -156,7 +156,8 @@ TStep ==
                    !.infloop = @ + (IF ~Given(r) /\ looped THEN 1 ELSE 0),
                    !.infshort = @ + (IF ~Given(r) /\ kind = "short" THEN 1 ELSE 0),
                    !.inferred = @ + (IF Given(r) THEN 0 ELSE 1),
-                   !.reuse = @ + (IF r.ns0 = 0 /\ r.slot \in DOMAIN slots THEN 1 ELSE 0)]
+                   !.reuse = @ + (IF r.ns0 = 0 /\ r.slot \in DOMAIN slots THEN 1 ELSE 0),
+                   !.reusenz = @ + (IF r.ns0 = 0 /\ r.slot \in DOMAIN slots /\ slots[r.slot].c > 0 THEN 1 ELSE 0)]
   /\ UNCHANGED <<inrun, conf>>
 
 TClose == Rec.e = "Close" /\ ~inrun /\ l = N /\ UNCHANGED <<inrun, conf, slots, viol, cnt, stat, cells>>
